@@ -144,6 +144,7 @@ fn main() {
         "C07" => props::c07::run(&ctx),
         "C08" => props::c08::run(&ctx),
         "C09" => props::c09::run(&ctx),
+        "C11c" => props::c11c::run(&ctx),
         "C12" => props::c12::run(&ctx),
         "C13" => props::c13::run(&ctx),
         "C14" => props::c14::run(&ctx),
